@@ -23,7 +23,11 @@ for s in seeds:
         out = {}
         for p in (PROPS if allprops else meta['breaks']):
             t0 = time.time()
+            evf = os.path.join(V, 'evidence', p + '.json')
+            saved = open(evf, 'rb').read() if os.path.exists(evf) else None   # evidence must describe runs on the UNCHANGED tree: keep it
             c = subprocess.run([os.path.join(V, 'check'), p, '--tier', tier], capture_output=True, text=True, cwd=V)
+            if saved is not None:
+                open(evf, 'wb').write(saved)
             lines = [l for l in c.stdout.split('\n') if l.startswith(('VIOLATION', 'UNDECIDED', '  failed', 'KNOWN'))]
             names = sorted({l.split('failed: ', 1)[1].split(':', 1)[0] for l in lines if l.startswith('  failed')})
             out[p] = {'exit': c.returncode, 'lines': lines[:6], 's': round(time.time() - t0, 1),
